@@ -32,6 +32,7 @@ ASSUMPTIONS = ["variable values are valid UTF-8 (they may contain '$' and refere
                "the temp root during the call",
                "paths are valid UTF-8 without NUL; no generated component is '.', '..' or longer than 255 bytes",
                "FixedWindowRoller substitutes '{}' before expanding (the substituted text is what the model receives)"]
+RELEASE_TOO = True          # the cases also run through the release-profile harness (see ./check)
 EXHAUSTIVE = {"quick": False, "thorough": False}
 TRUSTED = ["char::is_alphanumeric beyond ASCII is an oracle: the harness reports the real classification of the case's "
            "characters and the model is run with it (theorems hold for every oracle)",
